@@ -185,7 +185,7 @@ def seek (fx : Fix) (C : DS σ) (H : Nat) (t : Nat) (s : State σ) : State σ :=
         bucketIdx := nb }
       seekLoop C H t (H + 2) s1
     else
-      let ds1 := if fx.childRevalidate then s.docsets.map (fun c => C.seek (max (C.doc c) t) c)
+      let ds1 := if fx.childRevalidate || decide (Gen.UNION_SEEK_REVALIDATES_CHILDREN = 1) then s.docsets.map (fun c => C.seek (max (C.doc c) t) c)
         else s.docsets.map (fun c => if C.doc c < t then C.seek t c else c)
       let ds2 := ds1.filter (fun c => C.doc c != TERMINATED)
       let s1 := { s with window := [], scores := if s.sum then Array.replicate s.scores.size 0 else s.scores,
